@@ -39,9 +39,9 @@ func VerifC11AuthorizerLimits() {
 	blocks := []gBlock{blk}
 	g := gBuildToken(authority, blocks)
 	maxFacts := vInt("maxFacts")
-	vAssume(vAnd(maxFacts >= 0, maxFacts <= 50))
+	vAssume(vAnd(maxFacts >= -2, maxFacts <= 50)) // zero and negative limits included
 	maxIter := vInt("maxIterations")
-	vAssume(vAnd(maxIter >= 0, maxIter <= 50))
+	vAssume(vAnd(maxIter >= -2, maxIter <= 50))
 	// the limits are supplied in one option or spread over two: every one of them counts
 	opts := []AuthorizerOption{WithWorldOptions(datalog.WithMaxFacts(maxFacts), datalog.WithMaxIterations(maxIter), datalog.WithMaxDuration(30*time.Second))}
 	if vChoose("options", 2) == 1 {
